@@ -31,7 +31,7 @@ use datafusion::physical_plan::projection::ProjectionExec;
 use datafusion::physical_plan::repartition::RepartitionExec;
 use datafusion::physical_plan::sorts::sort::SortExec;
 use datafusion::physical_plan::sorts::sort_preserving_merge::SortPreservingMergeExec;
-use datafusion::physical_plan::{ExecutionPlan, Partitioning, PhysicalExpr, displayable};
+use datafusion::physical_plan::{ExecutionPlan, ExecutionPlanProperties, Partitioning, PhysicalExpr, displayable};
 use datafusion::prelude::SessionConfig;
 use datafusion_common::{JoinConstraint, JoinType, NullEquality};
 use datafusion_physical_expr::{LexOrdering, PhysicalSortExpr, ScalarFunctionExpr};
@@ -132,7 +132,7 @@ fn pattrs(p: &dyn ExecutionPlan) -> String {
         format!(
             "(pred {}) (proj {}) (sel {})",
             pexpr(x.predicate()),
-            atom(&format!("{:?}", x.projection().as_ref().map(|p| p.to_vec()))),
+            atom(&format!("{:?}", x.projection())),
             x.default_selectivity()
         )
     } else if let Some(x) = p.downcast_ref::<GlobalLimitExec>() {
@@ -193,7 +193,7 @@ fn pattrs(p: &dyn ExecutionPlan) -> String {
                 .collect::<Vec<_>>()
                 .join(" "),
             x.filter_expr().iter().map(|f| f.as_ref().map(pexpr).unwrap_or_else(|| "()".into())).collect::<Vec<_>>().join(" "),
-            atom(&format!("{:?}", x.limit_options().map(|l| (l.limit(), l.descending()))))
+            atom(&format!("{:?}", x.limit_options().map(|l| (l.limit, l.descending))))
         )
     } else {
         String::new()
